@@ -2025,6 +2025,64 @@ def part_rebuilt_terms(ctx, U, D, clean, use_driver=True):
                 break
 
 
+def part_supercedes(ctx, U, D):
+    """real multipledispatch.conflict.supercedes / consistent vs the model, on every ordered pair of
+    registered signatures of every dispatcher and on synthetic signatures registered through a
+    throw-away PartialDispatcher (top-level Union next to a bare funsor class, shared Variadic object,
+    variadic vs fixed of several lengths)."""
+    import funsor.ops as ops
+    from funsor.terms import Funsor, Number
+    from funsor.tensor import Tensor
+    pairs = []
+    for it in D.items:
+        for i, a in enumerate(it["sigs"]):
+            for j, b in enumerate(it["sigs"]):
+                pairs.append((a, b, it["enc"][i], it["enc"][j], it["name"]))
+    pd = PartialDispatcher(name="c16-synthetic")
+    V = ftyping.Variadic[Funsor]
+    synth = [(ops.Op, typing.Union[Number, Tensor], Funsor), (ops.Op, Funsor, Funsor), (ops.Op, Number, Funsor),
+             (ops.Op, (Number, Tensor), V), (ops.AddOp, Funsor, V), (ops.Op,), (ops.Op, [Funsor]), (ops.Op, Funsor),
+             (ops.Op, Funsor, [Tensor]), ([object],), (typing.Tuple[Funsor, ...], str), (tuple, str),
+             (typing.Tuple[typing.Union[Number, Tensor], ...], str), (typing.Union[typing.Tuple[int], str], str), (str, str)]
+    for sg in synth:
+        pd.add(sg, lambda *a: None)
+    ss = list(pd.funcs)
+    try:
+        es = [U.enc_sig(x) for x in ss]
+    except Unsupported as e:
+        ctx.infra_errors.append(f"synthetic signature not encodable: {e}")
+        return
+    for i, a in enumerate(ss):
+        for j, b in enumerate(ss):
+            pairs.append((a, b, es[i], es[j], "synthetic"))
+
+    def real(fn, a, b):
+        try:
+            return "T" if fn(a, b) else "F"
+        except TypeError:
+            return "E"
+        except AssertionError:
+            return "A"
+    reqs = []
+    for a, b, ea, eb, _ in pairs:
+        reqs.append(f"C16 sup {sigsx(ea)} {sigsx(eb)}")
+        reqs.append(f"C16 cons {sigsx(ea)} {sigsx(eb)}")
+    ans = ctx.driver.ask(reqs)
+    for k, (a, b, ea, eb, nm) in enumerate(pairs):
+        rs, rc = real(md_conflict.supercedes, a, b), real(md_conflict.consistent, a, b)
+        ms, mc = ans[2 * k][3:], ans[2 * k + 1][3:]
+        ctx.count(f"supercedes:{'synthetic' if nm == 'synthetic' else 'registered'}-pairs")
+        if rs != ms or (rc != mc and rc != "A"):
+            ctx.fail("correspondence", "C16.supercedes-vs-model",
+                     witness=dict(where=nm, a=[tshow(U, s) for s in ea], b=[tshow(U, s) for s in eb],
+                                  real=dict(supercedes=rs, consistent=rc), model=dict(supercedes=ms, consistent=mc)))
+            return
+    # the top-level-Union observation, on the real code: mutually non-superseding although Union <= Funsor
+    a, b = ss[0], ss[1]
+    ctx.count("supercedes:toplevel-union-vs-bare-class-incomparable:" +
+              str(not md_conflict.supercedes(a, b) and not md_conflict.supercedes(b, a)))
+
+
 def part_known_ambiguity(ctx, U, D, kf_cases):
     """dedicated stream for KF-precondition-ambiguous-patterns: two registered patterns overlap, neither
     is more specific, nothing more specific covers the overlap"""
@@ -2136,6 +2194,7 @@ def correspond(ctx):
         return
     part_values(ctx, U, D, clean, observed)
     part_rebuilt_terms(ctx, U, D, clean)
+    part_supercedes(ctx, U, D)
     kf_cases = []
     r = part_dispatch(ctx, U, D, observed, kf_cases=kf_cases)
     part_known_ambiguity(ctx, U, D, kf_cases)
